@@ -897,6 +897,9 @@ m("c09-vesting-end-unbounded", "C09", "x/vesting/types/msg.go",
 m("c09-overflow-test-ignored", "C09", "x/vesting/types/msg.go",
   "\tif err := validateScheduleEnd(msg.StartTime, msg.LockupPeriods); err != nil {\n\t\treturn err\n\t}\n", "\t_ = validateScheduleEnd(msg.StartTime, msg.LockupPeriods)\n",
   "LockupPeriods/end-fits-int64", "the overflow test's verdict is dropped", count=2)
+m("c07-gas-sum-unchecked", "C07", "app/ante/evm/setup_ctx.go",
+  "\t\tif msgGas := msgEthTx.GetGas(); msgGas > math.MaxInt64 || txGasLimit > math.MaxInt64-msgGas {", "\t\tif msgGas := msgEthTx.GetGas(); msgGas == 0 && txGasLimit > math.MaxInt64 {",
+  "overflow-tested", "the overflow test no longer involves the message's gas")
 for prop in ("C16", "C07"):
     m("c%s-gas-meter-without-precharge" % prop[1:], prop, "precompiles/common/precompile.go",
       "sdk.NewGasMeter(initialGas + contract.Gas)", "sdk.NewGasMeter(contract.Gas)",
